@@ -247,4 +247,95 @@ var checks = map[string]Check{
 			return js
 		},
 	},
+	"C09": {
+		Level:       "model_checking",
+		Rule:        "every plugin configuration of the alphabet {0-2 global-left, 0-1 global-right, group nesting depth 0-2 with/without group plugins, with/without a handler-level plugin, late append none/left/right, plugins implementing all stages or exactly one, no veto or one veto at every (plugin, pre-handler stage)} for calls and pushes is run on live sessions under every non-preemptive schedule; the recorded (plugin, stage, seq) trace is compared with a reference trace builder written from the documentation; a second route without group/handler plugins checks scoping; sibling registrations check chain isolation; calling-side stages and vetoes are enumerated separately",
+		Assumptions: baseAssumptions,
+		Jobs: func(tier string) []Job {
+			var js []Job
+			b := 0
+			for _, k := range []string{"call", "push"} {
+				for _, l := range []string{"none", "left", "right"} {
+					js = append(js, sched("c09", "kind="+k+",late="+l, b, 2))
+				}
+			}
+			js = append(js, sched("c09_siblings", "", b, 1), sched("c09_caller", "", b, 1))
+			if tier == "thorough" {
+				for i := range js {
+					js[i].Bound = 1
+					js[i].Shards = 8
+					js[i].Budget = 300
+				}
+			}
+			return js
+		},
+	},
+	"C15": {
+		Level:       "model_checking",
+		Rule:        "explicit enumeration of all histories up to depth 2 (quick) / 3 over 14 operations {ok call, 7 failure probes, proxied call with backend error, proxied call/push with backend down, secure key mismatch, auth reject, overload reject}; after each history every failure probe is repeated and its (code,msg,cause) compared with the triple observed before the history in the same pristine-restored process, and every predefined status is compared field by field",
+		Assumptions: append([]string{"the predefined statuses are restored to their pristine values at the start of every execution (they are process-global), so every history starts from the documented state"}, baseAssumptions...),
+		Jobs: func(tier string) []Job {
+			d := "2"
+			if tier == "thorough" {
+				d = "3"
+			}
+			j := sched("c15", "depth="+d, 0, 4)
+			j.EnvOnly = true
+			return []Job{j}
+		},
+	},
+	"C16": {
+		Level:       "model_checking",
+		Rule:        "a scripted raw client sends every first message of the alphabet {good/bad/erroring/undecodable AUTH_CALL, CALL, PUSH, REPLY, AUTH_REPLY, unknown type, garbage, every strict prefix of a valid AUTH_CALL, nothing} with 0-2 application frames pipelined before or after the verdict, for checker verdicts accept/reject/reject-with-value; all interleavings of client, accept path and reader up to the preemption bound; oracle: handler and per-message hook counters, checker count, AUTH_REPLY count on the wire, connection closed and not indexed when rejected",
+		Assumptions: baseAssumptions,
+		Jobs: func(tier string) []Job {
+			if tier == "thorough" {
+				j := sched("c16", "", 3, 16)
+				j.Budget = 900
+				return []Job{j}
+			}
+			return []Job{sched("c16", "", 2, 8)}
+		},
+	},
+	"C17": {
+		Level:       "model_checking",
+		Rule:        "full product {call,push} x secure marker {absent,true,false} x accept marker {absent,true,false} x key pair {same 16/24/32 bytes, different} x value length {0,1,15,16,17,100} for the json and xml body codecs on live sessions under every non-preemptive schedule; oracle: handler argument/caller result equality, plaintext substring search on the captured wire in both directions, reply encrypted iff requested, different key => no handler/no result and non-OK, unmarked traffic byte-identical to a run without the plugin",
+		Assumptions: baseAssumptions,
+		Jobs: func(tier string) []Job {
+			return []Job{sched("c17", "codec=json", 0, 2), sched("c17", "codec=xml", 0, 2)}
+		},
+	},
+	"C18": {
+		Level:       "model_checking",
+		Rule:        "(a) all histories up to depth 5 (quick) / 7 over {connect, remote close i, local close i, update limit to 1/2/3} with N in {1,2} against a counter model (admit iff live < limit, rejected closed, CountSession exact); (b) all interleavings (preemption bound) of 3 concurrent connects with one early disconnect: never more than N admitted at once and exactly N admitted afterwards; (c) token bucket: taker threads x attempts against refill ticks delivered to the limiter's own goroutine, all interleavings: admitted <= capacity + refill x ticks + ticks",
+		Assumptions: baseAssumptions,
+		Jobs: func(tier string) []Job {
+			if tier == "thorough" {
+				a := sched("c18_hist", "depth=7", 0, 16)
+				b := sched("c18_race", "threads=3", 3, 16)
+				b.Budget = 600
+				c := sched("c18_qps", "takers=3,takes=2,ticks=2", 3, 16)
+				c.Budget = 600
+				d := sched("c18_qps", "takers=2,takes=3,ticks=2", -1, 16)
+				d.Budget = 600
+				return []Job{a, b, c, d}
+			}
+			return []Job{sched("c18_hist", "depth=5", 0, 4), sched("c18_race", "threads=3", 2, 8), sched("c18_qps", "takers=2,takes=3,ticks=2", 2, 2), sched("c18_qps", "takers=1,takes=6,ticks=1", 3, 1)}
+		},
+	},
+	"C19": {
+		Level:       "model_checking",
+		Rule:        "full product (4320 configurations) {call,push} x {method served by the backend, served nowhere} x caller codec {json,plain,protobuf} x 4 body byte strings x 5 request-metadata sets (duplicate key, real-ip present/absent) x 6 backend statuses x backend failure {none, before, during forwarding} on a live client -> proxy -> backend chain, compared with the same request sent directly to an identical backend (metamorphic oracle: body bytes, status triple, reply metadata one value per key, reply codec, backend invocation count and metadata view, real-ip injected iff absent, 502 on backend failure)",
+		Assumptions: append([]string{"backend statuses in the reserved connection-class range 100..199 are outside the alphabet (the plugin documents rewriting them to 502)", "quick tier: deterministic default schedule per configuration; thorough: all non-preemptive schedules within a time budget"}, baseAssumptions...),
+		Jobs: func(tier string) []Job {
+			j := sched("c19", "", 0, 8)
+			j.EnvOnly = true
+			if tier == "thorough" {
+				k := sched("c19", "", 0, 16)
+				k.Budget = 900
+				return []Job{j, k}
+			}
+			return []Job{j}
+		},
+	},
 }
